@@ -2,6 +2,7 @@ import Nstd.Variant.LemmasSpec
 import Nstd.Variant.LemmasDec
 import Nstd.Variant.LemmasParse
 import Nstd.Variant.Ieee
+import Nstd.Variant.LemmasIeee
 import Nstd.Variant.DeepRun
 import Nstd.Variant.DeepFuel
 import Nstd.Variant.DeepSelf
@@ -309,10 +310,9 @@ instance is reflexive exactly off the NaN patterns (`ieee_eq_refl`: the hypothes
 bit pattern").  The boundary table of integer → double rounding below is evaluated by the kernel (a test, not a
 theorem).
 
-OPEN: `dOfInt` is the correctly rounded conversion —
-    ∀ n, |n| < 2^64 → dOfInt n is finite ∧ |value (dOfInt n) - n| ≤ ulp/2, ties to the even mantissa; exact for |n| ≤ 2^53
-  (needs the `Nat.log2` normalisation of `dOfRat`); it is compared bit for bit with the real `(double)` casts and with
-  Python's `float(int)` after every operation of the correspondence run (token `<toDouble bits>`). -/
+`dOfInt_correctly_rounded` / `toDouble_ieee_rounded` (below): `dOfInt` is the correctly rounded conversion for every
+|n| < 2^64 (LemmasIeee.lean); it is also compared bit for bit with the real `(double)` casts and with Python's `float(int)`
+after every operation of the correspondence run (token `<toDouble bits>`). -/
 
 /-- `toDouble()` on the driver's instance: the correctly-rounding `dOfInt` of the integer for bool and the four
     integer alternatives (the value itself, no intermediate narrowing), `dOfStr` (`atof`) for strings, +0.0 otherwise -/
@@ -321,6 +321,48 @@ theorem toDouble_ieee (v : Val) (hd : v.isDbl = false) :
       | .str s => dOfStr (cstr s)
       | v => dOfInt (v.num true)) := by
   cases v <;> simp [Val.isDbl] at hd <;> simp [Val.toDouble, Val.num, ieee]
+
+/-- **int → double is correctly rounded.**  `dVal2 d` = |value of the finite double `d`| · 2^1074 (an integer for every
+    double).  For every integer `n` with |n| < 2^64 (all four integer alternatives, bool) the result is the sign bit
+    plus a magnitude pattern `m` such that: there are finite doubles `lo ≤ |n| ≤ hi` whose bit patterns are equal or
+    adjacent, **no finite double lies strictly between them**, `m ∈ {lo, hi}`, `m` is the nearer one, a tie goes to the
+    even significand (even bit pattern), and the conversion is exact for |n| ≤ 2^53. -/
+theorem dOfInt_correctly_rounded (n : Int) (h : n.natAbs < 2 ^ 64) :
+    ∃ lo hi m : Nat, dOfInt n = (if n < 0 then 2 ^ 63 else 0) + m ∧ (m = lo ∨ m = hi) ∧
+      hi + 1 < 2047 * 2 ^ 52 ∧ (hi = lo ∨ hi = lo + 1) ∧
+      dVal2 lo ≤ n.natAbs * 2 ^ 1074 ∧ n.natAbs * 2 ^ 1074 ≤ dVal2 hi ∧
+      (∀ d, d < 2047 * 2 ^ 52 → ¬ (dVal2 lo < dVal2 d ∧ dVal2 d < dVal2 hi)) ∧
+      (m = lo → 2 * (n.natAbs * 2 ^ 1074) ≤ dVal2 lo + dVal2 hi ∧
+        (2 * (n.natAbs * 2 ^ 1074) = dVal2 lo + dVal2 hi → hi = lo ∨ lo % 2 = 0)) ∧
+      (m = hi → dVal2 lo + dVal2 hi ≤ 2 * (n.natAbs * 2 ^ 1074) ∧
+        (2 * (n.natAbs * 2 ^ 1074) = dVal2 lo + dVal2 hi → hi = lo ∨ hi % 2 = 0)) ∧
+      (n.natAbs ≤ 2 ^ 53 → dVal2 m = n.natAbs * 2 ^ 1074) := by
+  obtain ⟨lo, hi, hfin, hadj, h1, h2, hm, hlo, hhi, hex⟩ := dOfRat_int_rounded n.natAbs h
+  refine ⟨lo, hi, dOfRat n.natAbs 1, ?_, hm, hfin, hadj, h1, h2, ?_, hlo, hhi, hex⟩
+  · unfold dOfInt; split <;> simp
+  · intro d hd
+    rcases hadj with e | e
+    · rw [e]; intro ⟨a, b⟩; omega
+    · rw [e]; exact no_double_between lo d (by omega) hd
+
+/-- the `toDouble()` rows of the coercion table on the driver's instance: for bool and the four integer alternatives
+    (stored integer in the range of its C type) `toDouble()` is `dOfInt` of that integer, and the integer satisfies the
+    hypothesis of `dOfInt_correctly_rounded` — the conversion is the correctly rounded one, exact up to 2^53 -/
+theorem toDouble_ieee_rounded (v : Val) (hd : v.isDbl = false) (hs : ∀ s, v ≠ .str s) (hr : v.inRange) :
+    v.toDouble ieee = dOfInt (v.num true) ∧ (v.num true).natAbs < 2 ^ 64 := by
+  have e64 : (2 : Nat) ^ 64 = 18446744073709551616 := by decide
+  cases v with
+  | dbl d => cases hd
+  | str s => exact absurd rfl (hs s)
+  | bool b => cases b <;> exact ⟨rfl, by decide⟩
+  | int i => exact ⟨rfl, by simp only [Val.inRange, inS, pow31, Val.num, e64] at *; omega⟩
+  | uint i => exact ⟨rfl, by simp only [Val.inRange, inU, pow32, Val.num, e64] at *; omega⟩
+  | int64 i => exact ⟨rfl, by simp only [Val.inRange, inS, pow63, Val.num, e64] at *; omega⟩
+  | uint64 i => exact ⟨rfl, by simp only [Val.inRange, inU, pow64, Val.num, e64] at *; omega⟩
+  | null => exact ⟨rfl, by decide⟩
+  | map m => exact ⟨rfl, by simp [Val.num]⟩
+  | list m => exact ⟨rfl, by simp [Val.num]⟩
+  | array m => exact ⟨rfl, by simp [Val.num]⟩
 
 /-- integer → double is odd: the sign bit apart, `-n` converts like `n` -/
 theorem dOfInt_neg (n : Int) (h : 0 < n) : dOfInt (-n) = 2 ^ 63 + dOfInt n := by
